@@ -269,6 +269,48 @@ theorem C05_refines_deleteSnap (st : St) (n : String) :
   · cases h
   · injection h with h; subst h; exact ⟨rfl, rfl, rfl⟩
 
+/-- a deadline modification (positive, zero or negative) only moves attempt times -/
+theorem C05_refines_delay (st : St) (ids : List Id) (Δ : Int) :
+    Ord.stepOk true st.db st.now (step st (.delay ids Δ)).1.db (step st (.delay ids Δ)).1.now = true := by
+  simp only [step]
+  unfold delay
+  simp only
+  split
+  · simp only [finish]
+    refine Ord.stepOk_of_map st.db st.now _ st.now
+      (fun x => if (ids.contains x.id && x.completedAt.isNone) = true then { x with attemptAt := st.now + Δ } else x)
+      (Int.le_refl _) rfl rfl ?_
+    intro d _
+    split
+    · exact Ord.rowUpdOk_attemptAt st.db st.now _ rfl d _
+    · exact Ord.rowUpdOk_refl st.db st.now _ rfl d
+  · simp only [finish]
+    refine Ord.stepOk_of_map st.db st.now _ st.now
+      (fun x => if ((ids.contains x.id && x.completedAt.isNone) && decide (x.attemptAt < st.now + Δ)) = true
+        then { x with attemptAt := st.now + Δ } else x)
+      (Int.le_refl _) rfl rfl ?_
+    intro d _
+    split
+    · exact Ord.rowUpdOk_attemptAt st.db st.now _ rfl d _
+    · exact Ord.rowUpdOk_refl st.db st.now _ rfl d
+
+/-- an acknowledgement of deliveries that have been handed out (the only ack ids a client can hold) -/
+theorem C05_refines_ack (st : St) (ids : List Id)
+    (hdelivered : ∀ d ∈ st.db.dels, ids.contains d.id = true → 0 < d.attempts) :
+    Ord.stepOk true st.db st.now (step st (.ack ids)).1.db (step st (.ack ids)).1.now = true := by
+  simp only [step]
+  unfold ack
+  simp only [finish]
+  refine Ord.stepOk_of_map st.db st.now _ st.now
+    (fun x => if (ids.contains x.id && x.completedAt.isNone) = true then { x with completedAt := some st.now } else x)
+    (Int.le_refl _) rfl rfl ?_
+  intro d hd
+  split
+  · rename_i hc
+    simp only [Bool.and_eq_true] at hc
+    exact Ord.rowUpdOk_complete st.db st.now _ rfl d _ (hdelivered d hd hc.1)
+  · exact Ord.rowUpdOk_refl st.db st.now _ rfl d
+
 /-- non-vacuity: an ordered subscription, two messages of key "k" in one request, the first is pulled
     and acknowledged, then the second is pulled — every step satisfies the obligation (and while the
     first is outstanding the model's pull is given, and accepts, only the first as candidate) -/
